@@ -64,3 +64,40 @@ var extraDumps = map[string]func(w *World){}
 type stdoutWriter struct{}
 
 func (stdoutWriter) Write(p []byte) (int, error) { fmt.Print(string(p)); return len(p), nil }
+
+func init() {
+	extraDumps["writers"] = func(w *World) {
+		for _, n := range []string{"(*Encoder).writeList", "(*Encoder).writeMap", "(*Encoder).writeObject", "(*Encoder).writeClsDef", "(*Encoder).writeRef"} {
+			fn := w.role(n)
+			if fn == nil {
+				continue
+			}
+			wi := w.writerPaths(fn)
+			fmt.Printf("== %s: %d paths truncated=%v\n", n, len(wi.paths), wi.truncated)
+			for i, p := range wi.paths {
+				if i > 40 {
+					break
+				}
+				var parts []string
+				for _, e := range p.Trace {
+					s := e.Kind
+					if e.Kind == "octets" || e.Kind == "bytes" {
+						for _, a := range e.Args {
+							if a == nil {
+								s += " ?"
+								continue
+							}
+							v, _ := w.evalEv(a, e.Env)
+							s += " " + v.HexString()
+						}
+					}
+					if e.Kind == "loophead" {
+						s = "L"
+					}
+					parts = append(parts, s)
+				}
+				fmt.Printf("   errNil=%v %s\n", p.ErrNil, strings.Join(parts, " ; "))
+			}
+		}
+	}
+}
